@@ -35,7 +35,10 @@ where
     where
         D: Deserializer<'de>,
     {
-        Ok(match T::deserialize(de) {
+        // Read the element as a whole first: an error while reading (truncated input) must end the
+        // enclosing list, only a value that was read but is not a `T` is ignored.
+        let value = ciborium::value::Value::deserialize(de)?;
+        Ok(match value.deserialized() {
             Ok(val) => Self::Some(val),
             Err(_) => Self::None,
         })
